@@ -351,6 +351,24 @@ impl ExpressionPredicate {
                     let left_val = self.eval_expr(left, chunk, row)?;
                     return self.eval_in_operator(&left_val, right, chunk, row);
                 }
+                // AND / OR are three-valued: an unknown (NULL) operand does not
+                // decide the result, but a false AND-operand or a true OR-operand does
+                if matches!(op, BinaryFilterOp::And | BinaryFilterOp::Or) {
+                    let l = self
+                        .eval_expr(left, chunk, row)
+                        .and_then(|v| v.as_bool());
+                    let r = self
+                        .eval_expr(right, chunk, row)
+                        .and_then(|v| v.as_bool());
+                    let decisive = *op == BinaryFilterOp::Or;
+                    return if l == Some(decisive) || r == Some(decisive) {
+                        Some(Value::Bool(decisive))
+                    } else if l.is_some() && r.is_some() {
+                        Some(Value::Bool(!decisive))
+                    } else {
+                        None
+                    };
+                }
                 let left_val = self.eval_expr(left, chunk, row)?;
                 let right_val = self.eval_expr(right, chunk, row)?;
                 self.eval_binary_op(&left_val, *op, &right_val)
